@@ -362,12 +362,12 @@ func (e *SpecEnv) Eval(x SExpr) SV {
 				if c, ok := p.(SCall); ok && c.Fn == "$multi" {
 					var ts []string
 					for _, a := range c.Args {
-						ts = append(ts, patTerm(ne.Eval(a)))
+						ts = append(ts, ne.patOf(a))
 					}
 					ps = append(ps, "("+strings.Join(ts, " ")+")")
 					continue
 				}
-				ps = append(ps, "("+patTerm(ne.Eval(p))+")")
+				ps = append(ps, "("+ne.patOf(p)+")")
 			}
 			bt = fmt.Sprintf("(! %s :pattern %s)", bt, strings.Join(ps, " :pattern "))
 		}
@@ -379,6 +379,17 @@ func (e *SpecEnv) Eval(x SExpr) SV {
 
 // patTerm: the term of a trigger expression; a struct location (s[i] of a struct-element slice, *p) is
 // represented by its reference (an empty :pattern () is rejected by cvc5 and ignored by z3).
+// patOf: the trigger term of a pattern expression. has(m, k) is a conjunction (m != nil && k in dom(m)), which no
+// solver accepts inside a pattern: its trigger is the domain lookup alone.
+func (e *SpecEnv) patOf(p SExpr) string {
+	if c, ok := p.(SCall); ok && c.Fn == "has" && len(c.Args) == 2 {
+		m, k := e.Eval(c.Args[0]), e.Eval(c.Args[1])
+		dom, _, _, _ := e.G.TE.MapHeaps(m.Typ)
+		return fmt.Sprintf("(select (select %s %s) %s)", e.Cur.Heap(dom), m.Term, k.Term)
+	}
+	return patTerm(e.Eval(p))
+}
+
 func patTerm(v SV) string {
 	if v.Term == "" && v.Loc != nil {
 		return v.Loc.Base
